@@ -40,6 +40,13 @@ func c18World(keyed bool) *model.World {
 	} else {
 		w.SeedReplay(map[uint32][]model.Write{R0: seed, R1: seed})
 	}
+	// start from a transaction pool that has seen a transaction that gave up (after
+	// buffering a write) and one that only read, like every other SCHED scenario
+	w.C.Query(func(txn *column.Txn) error {
+		txn.QueryAt(R0, func(r column.Row) error { r.SetInt("n", 77); return nil })
+		return fmt.Errorf("verif: warm-up transaction gives up")
+	})
+	w.C.Query(func(txn *column.Txn) error { txn.Count(); return nil })
 	return w
 }
 
